@@ -271,6 +271,9 @@ impl Scenario for BigramScenario {
             big_costs_one_in: 5,
             huge_dim_one_in: 0,
             extreme_ids_one_in: 1500,
+            one_id_side_one_in: 60,
+            threshold_sizes_one_in: 0,
+            multiline_feature_one_in: 0,
         };
         // template counts around the SIMD width get extra weight
         let mut cfg = cfg;
@@ -292,6 +295,13 @@ impl Scenario for BigramScenario {
             plan.ops.push(Op::new("Dual").n(&[(rng.next_u64() >> 2) as i64]));
         }
         plan.ops.push(Op::new("Matrix"));
+        // a dual (and a raw) dictionary whose connection ids are remapped before the lookups: the
+        // remapping moves feature rows and renumbers the rows of the pre-summed matrix
+        if rng.chance(1, 3) {
+            let l = crate::world::join_ids(&crate::world::gen_perm(rng, info.num_left));
+            let r = crate::world::join_ids(&crate::world::gen_perm(rng, info.num_right));
+            plan.ops.push(Op::new("Remapped").n(&[(rng.next_u64() >> 2) as i64]).s(&l).s(&r));
+        }
         plan
     }
 
@@ -436,6 +446,54 @@ impl Scenario for BigramScenario {
                     }
                     ctx.event("matrix", "equals raw");
                 }
+                "Remapped" => {
+                    let seed = op.num(0) as u64;
+                    let lmap = crate::world::parse_ids(op.str(0));
+                    let rmap = crate::world::parse_ids(op.str(1));
+                    if lmap.len() + 1 != nl || rmap.len() + 1 != nr {
+                        continue; // (a shrunk plan)
+                    }
+                    // new id of old id x = position of x in the list (1-origin); 0 stays 0
+                    let new_of = |list: &[u16], dim: usize| -> Vec<usize> {
+                        let mut v = vec![0usize; dim];
+                        for (i, &o) in list.iter().enumerate() {
+                            if usize::from(o) < dim {
+                                v[usize::from(o)] = i + 1;
+                            }
+                        }
+                        v
+                    };
+                    let (pl, pr) = (new_of(&lmap, nl), new_of(&rmap, nr));
+                    let matrix_positions = reference.split(seed);
+                    for (name, conn) in [("raw", CONN_RAW), ("dual", CONN_DUAL)] {
+                        let d = build_plain("C07.remapped", &plan.files, conn, seed, ctx)?;
+                        let d = crate::dictops::must("C07.remap", "map_connection_ids_from_iter", crate::dictops::map_ids(d, &lmap, &rmap))?;
+                        let (_, o) = observe(d, &probes[..0], true);
+                        let o = o.map_err(|p| panic_violation("C07.remapped.observe", "cost lookups of the remapped dictionary", &p))?;
+                        ctx.observations += 1;
+                        for r in 0..nr {
+                            for l in 0..nl {
+                                let want = if conn == CONN_RAW {
+                                    reference.sum(r, l)
+                                } else {
+                                    reference.dual(&matrix_positions, r, l).0
+                                };
+                                let got = i64::from(o.costs[pr[r] * nl + pl[l]]);
+                                if got != want {
+                                    return Err(Violation::new(
+                                        "C07.remapped",
+                                        format!(
+                                            "{name} connector after remapping (left {:?}, right {:?}; trial order seed {seed}, K={}): cost(new right {}, new left {}) = {got}, the pair was (right={r}, left={l}) with value {want}",
+                                            op.str(0), op.str(1), reference.k, pr[r], pl[l]
+                                        ),
+                                    ));
+                                }
+                            }
+                        }
+                    }
+                    ctx.count("probe.remapped_lookup");
+                    ctx.event(&op.brief(), "equal up to the permutation");
+                }
                 other => return Err(Violation::new("C07.plan", format!("unknown op {other}"))),
             }
         }
@@ -449,7 +507,7 @@ impl Scenario for BigramScenario {
     fn describe(&self) -> ScenarioInfo {
         ScenarioInfo {
             level: "exploration",
-            rule: "one seeded run = a seeded bigram model (K in 1..20 templates with extra weight on 1,2,5,7,8,9,15,16,17,19; ragged rows, strings shared across positions and sides, quoted features, dense/sparse cost tables, BOS/EOS lines, unused strings; 2-7 ids per side) compiled (a) with the raw connector, (b) with the dual connector under the ascending trial order and 2-8 seeded trial orders of the greedy template split (hook H5), (c) as a matrix.def materialised from the harness-side defining sums. For every id pair incl. id 0: raw == defining sum; every dual == raw; all three tokenize the probes identically. distinct_nontrivial = distinct plan hashes of runs with >= 1 comparison",
+            rule: "one seeded run = a seeded bigram model (K in 1..20 templates with extra weight on 1,2,5,7,8,9,15,16,17,19; ragged rows, strings shared across positions and sides, quoted features, dense/sparse cost tables, BOS/EOS lines, unused strings; 2-7 ids per side) compiled (a) with the raw connector, (b) with the dual connector under the ascending trial order and 2-8 seeded trial orders of the greedy template split (hook H5), (c) as a matrix.def materialised from the harness-side defining sums. For every id pair incl. id 0: raw == defining sum; every dual == raw; all three tokenize the probes identically. Added later: aligned blocks of empty columns; 1 world in 5 with per-template costs of thousands (signs alternating by blocks of eight positions, single entries beyond 16 bits), 1 in 60 with a side that has the BOS/EOS id only, 1 in 1500 with 65535 rows on one side; every dual dictionary is compared pair by pair with an executable reference model (own greedy split under the same trial order; pre-summed part clamped once to 16 bits); 1 run in 3 also remaps a raw and a dual dictionary with seeded permutations and compares every pair through the permutation; the hash order of every map in vibrato is seeded per run (hash-order seam). distinct_nontrivial = distinct plan hashes of runs with >= 1 comparison",
             assumptions: vec![
                 "bigram.cost contains no literal '*' feature and no '/'-only line (BOSxEOS padding lanes would otherwise need interpretation); costs are within [-300,300] so the pre-summed part fits 16 bits",
                 "the for-all-models quantifier of the statement is sampled as workload; what the simulation decides is independence from the hidden template split (and, thorough tier, from the build)",
@@ -467,6 +525,7 @@ impl Scenario for BigramScenario {
                 "probe.two_distinct_splits",
                 "probe.presum_outside_16_bits",
                 "probe.id_65535_in_use",
+                "probe.remapped_lookup",
             ],
         }
     }
